@@ -37,6 +37,22 @@ def plan(tier, seed):
     return specs
 
 
+import enum  # noqa: E402
+
+
+class Level(enum.IntEnum):
+    LOW = 1
+    HIGH = 404
+
+
+class Colour(str, enum.Enum):
+    RED = 'red'
+
+
+class Tag(str):
+    pass
+
+
 # ---------------------------------------------------------------- reference model
 VALID = (bool, str, bytes, int, float)
 
@@ -143,7 +159,8 @@ def gen_value(r, valid_only=False):
     if c == 6:
         return [r.pick(['s', None, b'by']) for _ in range(r.randrange(1, 5))]
     if c == 7:
-        return r.pick(['plain', 7, 2.5])
+        # values whose type is a subclass of a primitive one (enum members, str subclasses) are values of that kind
+        return r.pick(['plain', 7, 2.5, Level.HIGH, Colour.RED, Tag('tagged-%d' % r.randrange(9)), Tag('t' * 80)])
     # --- invalid / rejected classes
     if c == 8:
         return None
